@@ -136,7 +136,7 @@ var QueryCalls int
 //@ loop 0 invariant[lens] len(results) == len(inputs) && len(toFetchIndexes) == len(inputsToFetch)
 //@ loop 0 invariant[idx] forall(j, 0, len(toFetchIndexes), 0 <= toFetchIndexes[j] && toFetchIndexes[j] < it && inputsToFetch[j] == inputs[toFetchIndexes[j]] && !FileReq(inputs[toFetchIndexes[j]]))
 //@ loop 0 invariant[files] forall(k, 0, it, FileReq(inputs[k]) ==> Ans(inputs[k], results[k]))
-//@ loop 0 invariant[cover] forall(k, 0, it, !FileReq(inputs[k]) ==> exists(j, 0, len(toFetchIndexes), toFetchIndexes[j] == k))
+//@ loop 0 invariant[cover] forall(k, 0, it, !FileReq(inputs[k]) ==> exists(j, 0, len(toFetchIndexes), toFetchIndexes[j] == k)) @using cover, lens, own
 //@ loop 1 invariant[done] forall(j, 0, it, Ans(inputs[toFetchIndexes[j]], results[toFetchIndexes[j]]))
 //@ loop 1 invariant[files] forall(k, 0, len(inputs), FileReq(inputs[k]) ==> Ans(inputs[k], results[k]))
 //@ end
